@@ -2383,7 +2383,7 @@ def _returned_elements(callee: FunctionInfo, ci) -> list[list[ast.expr]] | None:
 
 def _helper_element_parts(fi: FunctionInfo, call: ast.Call, depth: int) -> tuple[list[set[str]], object] | None:
     lc = _local_callee(fi, call)
-    if lc is None or depth > 6:
+    if lc is None or depth > 18:
         return None
     callee, ci = lc
     rets = _returned_elements(callee, ci)
@@ -2405,7 +2405,7 @@ def _helper_element_parts(fi: FunctionInfo, call: ast.Call, depth: int) -> tuple
 def _hash_part(fi: FunctionInfo, e: ast.expr | None, depth: int = 0, busy: frozenset = frozenset()) -> set[str]:
     """Which part of the link destination an expression holds: PATH (before '#'), ID (after '#'),
     WHOLE (unsplit href), NONE/CONST, or ? (not understood). SPLIT/IDLIST are intermediate."""
-    if e is None or depth > 8:
+    if e is None or depth > 24:
         return {"?"}
     if isinstance(e, ast.Constant):
         return {"NONE"} if e.value is None else {"CONST"}
